@@ -728,7 +728,9 @@ theorem timestamp_backwards (P : Params) (ls : List Line) (h : TimestampBackward
         rw [if_neg hne]; exact decide_eq_true h
       · have he : a1 = a2 := h1.symm
         rw [if_pos he]; exact decide_eq_true h2
-    simp only [chkGroupTs, Option.isNone, bne_self_eq_false, Bool.false_eq_true, if_false, tsGt, hgt, exempt_false t hti,
+    -- `Timestamp` against `Timestamp` is compared exactly, on (sec, nsec) — not through `float()`
+    have hexact : tsCompareViaFloat = false := by decide
+    simp only [chkGroupTs, Option.isNone, bne_self_eq_false, Bool.false_eq_true, if_false, tsGt, hexact, hgt, exempt_false t hti,
       Bool.not_false, Bool.and_self]
     rfl
   · rw [e1, e2]
